@@ -1224,7 +1224,8 @@ func Hydro(horizon int, g *GlobalVarsMain, local *InputSharedVars, hPath *HFileP
 
 			g.WUMAX[horizonIndex] = ValAsFloat(wa[31:33], hyparName, wa)
 			if horizon == 1 {
-				calcWRed(g.LIM[horizonIndex]*100, local.FK[horizonIndex]*100, g)
+				// like W and WMIN of the top layer, the threshold refers to the stone-free soil volume
+				calcWRed(g.LIM[horizonIndex]*100*(1-g.STEIN[horizonIndex]), local.FK[horizonIndex]*100*(1-g.STEIN[horizonIndex]), g)
 			}
 			break
 		}
